@@ -189,7 +189,7 @@ func init() {
 				for j := 1 + rng.Intn(3); j > 0; j-- {
 					ts = append(ts, fmt.Sprintf("%d/%d/%d/%d/%d", h, randIdx(h), randIdx(h), zk, randIdx(zk)))
 				}
-				outV := []int64{36, 36, 37, 40, -1, -2, 35, 0}[rng.Intn(8)]
+				outV := []int64{36, 36, 37, 40, -1, -2, zk, 0}[rng.Intn(8)] // (valid ones without a large expansion)
 				do("tile2ext", join(ts), "25", "0", s(outV))
 				continue
 			}
